@@ -230,7 +230,8 @@ Definition substvar_texts (t : rtree) : list str := map text (filter (node_is SU
    variables allowed), after every operation of every in-range history the machine has not
    panicked, the root holds exactly the list model's field, its text parses again without
    error to that same field, and the substitution variables kept their text.  [v] is the
-   variant of the code the statement is about. *)
+   variant of the code the statement is about.  Proved for [fixed] (the code as it is in /repo):
+   props/C11.v, C11_full_theorem. *)
 Definition C11_full (v : variant) : Prop :=
   forall (s : str) (t0 : rtree) (f0 : lfield) (ops : list aop),
     parse_relaxed s true = Ok (t0, 0) -> structure t0 = Ok f0 ->
